@@ -9,6 +9,9 @@ NOTE_COMMON = ('Trusted base: clang 14 parser/sema/CFG builder; class-hierarchy 
 
 CHECKS = {
     # id: (technique, level text, undecided clauses)
+    'C07': ('typed exception-flow fix-point over the whole-program call graph (CHA, handler liveness, library-thrower table), containment check at every engine callback site and at every thread root / C callback, CFG path query through each catch(ErrorEvent) handler, re-entrancy check of enqueue-and-rethrow handlers, dominance of fault guards',
+            'Decides for all documents at once that no exception of a repository type can leave step() from a callback site or leave a thread root of the interpreter core, that every ErrorEvent handler on the executable-content path raises the error event on every path exactly once, that a failing block skips only itself, and that the anchored arithmetic/index faults are guarded.',
+            'Not decided: out-of-bounds inside third-party C code; exceptions thrown by user-supplied monitors or by library calls outside the library-thrower table.'),
     'C12': ('call-graph who-calls rule for the single matcher; linear normal form of token guards and a confirmed table of skip/start/last-token combinations in the sibling scanner loops; structural fingerprint + decision-feature comparison of the two matcher copies; normalisation-feature extraction at every trie lookup',
             'Decides that interpreter, validator and debugger share one matcher, that every whitespace-splitting scanner (incl. the copies shipped for generated C) takes every non-empty token, that the shipped copy of the matcher has the same decision features, and that Promela and VHDL normalise descriptors alike before static resolution.',
             'Not decided: the relation nameMatch computes on all strings (needs execution or a solver).'),
